@@ -28,8 +28,8 @@ CLAIMED = {
    note="JSON text layer and schema body outside; addresses <= 4 bytes; trusted: Kani/CBMC/cadical, support drivers",
    ref="§3 C20"),
  "C06": dict(
-   text="For 8 override configurations (real #[entry_points] expansion) CBMC decides, for EVERY entry point the configuration must emit (29 in total: instantiate/execute/query/sudo minus the overridden kinds, plus migrate/reply when such a handler exists and is not overridden), over all message arguments, env, info, storage tags and handler outcomes, that it builds the contract with new(), dispatches with the given deps/env/info (reply: dispatch_reply with gas and payload) and returns the dispatch outcome with the contract's error type. That the expected entry points EXIST is decided by the compile gate (the crate names them) -- this is how the wrong `query` override mapping was found (fixed).",
-   note="absence of overridden / handler-less entry points is a token-level fact outside the claim; 8 of the 2^6 x 2 x 2 configurations are sampled; generic #[entry_points(generics<..>)] and the legacy reply entry point are outside; stubs: Backtrace::capture, fmt::format",
+   text="For 10 override configurations (real #[entry_points] expansion) CBMC decides, for EVERY entry point the configuration must emit (39 in total: instantiate/execute/query/sudo minus the overridden kinds, plus migrate/reply when such a handler exists and is not overridden), over all message arguments, env, info, storage tags and handler outcomes, that it builds the contract with new(), dispatches with the given deps/env/info (reply: dispatch_reply with gas and payload) and returns the dispatch outcome with the contract's error type. That exactly the expected entry points exist -- presence by naming them, ABSENCE of overridden / handler-less ones by glob-import ambiguity probes -- is decided by the compile gate; this is how the wrong `query` override mapping was found (fixed).",
+   note="presence/absence is a compile-gate fact (not solver-derived); 10 of the 2^6 x 2 x 2 configurations are sampled; generic #[entry_points(generics<..>)] and the legacy reply entry point are outside; stubs: Backtrace::capture, fmt::format",
    ref="§3 C06"),
  "C04": dict(
    text="CBMC decides, for the real #[entry_points] expansion of corpus `basic` (19 handlers in 5 kinds, wire name `tick{n}` present as exec, query AND sudo, instantiate and migrate sharing their argument names): every well-formed message of kind K1 (symbolic choice and argument values), decoded by the real contract-level message of kind K2 != K1 and, when accepted, pushed through entry_points::<K2> with echo handlers, never runs a handler annotated with another kind; it is rejected unless K2 itself has a message of that name/shape, in which case K2's OWN handler runs. One harness per ordered pair of kinds.",
